@@ -68,7 +68,9 @@ impl<T: Float> LineSearchMethod<T> for Backtracking<T> {
 
         while fx1 > f0 + self.c1 * a2 * df0 {
             if iteration > self.max_iterations {
-                panic!("Linesearch failed to converge, reached maximum iterations.");
+                // no acceptable step along this direction (e.g. the objective is flat to rounding):
+                // give up with the smallest step tried instead of aborting the whole fit
+                break;
             }
 
             let a_tmp;
